@@ -2,11 +2,12 @@
 # Runs every seeded change under /verif/seeded against the quick check of its property (and, if that check stays silent,
 # against the other checks named in tools/seed_also.txt).  Prints one line per seed.
 VROOT=${VROOT:-/verif}; cd $VROOT
-for d in seeded/${SEED_GLOB:-*}/; do
-  id=$(basename $d); prop=${id:0:3}
+if [ -n "$SEED_LIST" ]; then LIST="$SEED_LIST"; else LIST=$(ls seeded | grep -E "${SEED_RE:-.}"); fi
+for id in $LIST; do
+  prop=${id:0:3}
   extra=$(grep "^$id " tools/seed_also.txt 2>/dev/null | cut -d' ' -f2-)
   res=""
-  for p in $prop $extra; do
+  for p in $(echo $prop $extra | tr " " "\n" | awk "!s[\$0]++"); do
     out=$(tools/try_mutant.sh $VROOT/seeded/$id/patch.diff quick $p 2>&1)
     if echo "$out" | grep -q "patch does not apply"; then res="$res $p:PATCH-DOES-NOT-APPLY"; break; fi
     nv=$(echo "$out" | grep -o "violations=[0-9]*" | head -1 | cut -d= -f2)
